@@ -74,7 +74,7 @@ class C17(Property):
     self.runs_done = 0
 
   def budget(self, tier):
-    return (12000, 40.0) if tier == "quick" else (2000000, 900.0)
+    return (70000, 60.0) if tier == "quick" else (12000000, 780.0)
 
   def extra_schedules(self):
     return 12
